@@ -7,6 +7,7 @@ ops (bytes are lower-case hex, `-` = empty):
   derive <bytes> session <uuid> | record <name> | rspec <name>      As…Address on arbitrary bytes
   key <ix> <first> <second>                       index key makers; ix ∈ as ss ap cp ac nav
   pfx <ix> <a> <a2> <id>                          is key(a2,id) under the iterator prefix of a?
+  unb32 <utf8 bytes of a text>                    ParseMetadataAddressFromBech32 / MetadataAddressFromBech32
 -/
 import PvModel.MdAddrSpec
 import PvModel.Sha256
@@ -72,7 +73,7 @@ def describe (bz : Bytes) : String :=
       isRecordSpecificationAddress bz].map boolStr)
   let det := "/".intercalate [toHex d.pfx, toHex d.primary, toHex d.secondary, toHex d.nameHash,
       toHex d.excess, toHex d.parent]
-  let b32 := if err.isNone then "1" else "-"
+  let b32 := if err.isNone then (toBech32 bz).getD "?" else "-"
   s!"a={toHex bz} v={v} hrp={if hrp = "" then "-" else hrp} pu={showE (primaryUUID bz)} " ++
   s!"su={showE (secondaryUUID bz)} nh={showE (nameHash bz)} scu={showE (scopeUUID bz)} " ++
   s!"seu={showE (sessionUUID bz)} ssu={showE (scopeSpecUUID bz)} csu={showE (contractSpecUUID bz)} " ++
@@ -87,6 +88,7 @@ inductive Op where
   | derive (bz : Bytes) (k : Kind) (arg : Bytes)
   | key (ix : Index) (first second : Bytes)
   | pfx (ix : Index) (a a2 id : Bytes)
+  | unb32 (text : Bytes)
 
 def parseOp (ws : List String) : Option Op :=
   match ws with
@@ -95,6 +97,7 @@ def parseOp (ws : List String) : Option Op :=
   | ["derive", bz, k, arg] => do pure (.derive (← ofHex? bz) (← kindOfString? k) (← ofHex? arg))
   | ["key", ix, a, b] => do pure (.key (← indexOfString? ix) (← ofHex? a) (← ofHex? b))
   | ["pfx", ix, a, a2, id] => do pure (.pfx (← indexOfString? ix) (← ofHex? a) (← ofHex? a2) (← ofHex? id))
+  | ["unb32", t] => do pure (.unb32 (← ofHex? t))
   | _ => none
 
 /-- the constructors, by kind; `none` = panic -/
@@ -141,6 +144,10 @@ def runOp (op : Op) : String :=
     match iterPrefix ix a, indexKey ix a2 id with
     | some p, some k => boolStr (p.isPrefixOf k)
     | _, _ => "panic"
+  | .unb32 t =>
+    match parseMetadataAddressFromBech32 (bytesToString t) with
+    | some (a, hrp) => s!"ok {toHex a} {hrp}"
+    | none => "err"
 
 /-- checks on a described VALID address `a` whose documented components are `p` -/
 def checkValid (ws : List String) (a : Bytes) (p : Parts) : String :=
@@ -159,7 +166,8 @@ def checkValid (ws : List String) (a : Bytes) (p : Parts) : String :=
   else if f "pu" ≠ toHex p.primary then "fail:parts_roundtrip"
   else if f "is" ≠ isExp then "fail:is_kind_flags"
   else if f "um" ≠ "1" then "fail:unmarshal_rejects_valid"
-  else if f "b32" ≠ "1" then "fail:bech32_roundtrip"
+  -- the implementation's text, read by the model's decoder, gives back the bytes and the hrp
+  else if parseMetadataAddressFromBech32 (f "b32") ≠ some (a, p.kind.hrp) then "fail:bech32_roundtrip"
   else if f "a" ≠ toHex a then "fail:bytes_roundtrip"
   else "ok"
 
@@ -216,6 +224,20 @@ def verdict (op : Op) (impl : String) : String :=
     match ws with
     | ["1"] => if a = a2 then "ok" else "fail:index_key_prefix_confusion"
     | ["0"] => if a = a2 then "fail:index_key_prefix_missed" else "ok"
+    | _ => "ok"
+  | .unb32 t =>
+    match ws with
+    | ["ok", ah, hrp] =>
+      -- an accepted text denotes a well-formed address of the hrp's type, and writing that
+      -- address gives the text back (in lower case): text → bytes → text loses nothing
+      match (ofHex? ah).bind Parts.ofBytes? with
+      | none => "fail:bech32_parse_accepts_invalid"
+      | some p =>
+        if p.kind.hrp ≠ hrp then "fail:address_wrong_type"
+        else if toBech32 p.toBytes ≠ some (String.ofList ((bytesToString t).toList.map lowerChar)) then
+          "fail:bech32_roundtrip"
+        else "ok"
+    | ["mismatch"] => "fail:bech32_parse_variants_disagree"
     | _ => "ok"
 
 def stepOp (ws : List String) (impl : Option String) : String × String :=
